@@ -366,6 +366,8 @@ def Constraint.jacobianV (c : Constraint α) (v : Nat → α) : Jac α :=
     let ax := v a.center.x; let ay := v a.center.y; let ar := v a.radius
     let bx := v b.center.x; let bY := v b.center.y; let br := v b.radius
     let dist := sqrt (sqr (ax - bx) + sqr (ay - bY))
+    -- coincident centres: no row, degenerate (guard added by fix for finding F22, as for `distance`)
+    if dist < EPS then { degenerate := true } else
     let isInternal := abs (dist - abs (ar - br)) < abs (ar + br - dist)
     let pdax := (-ax + bx) * recip dist
     let pday := (-ay + bY) * recip dist
